@@ -56,3 +56,59 @@ func VerifC04SimpleTTL() {
 	verifAssert("id-of-request", got.Id == req.Id)
 	verifReach("served")
 }
+
+// VerifC04SimpleSections: every record of every section of a negative answer served
+// from the simple cache has aged - answer, authority and additional alike - on the
+// first hit and on later hits of the same entry, and a hit does not change the entry.
+//
+//verif:harness name=H04g-simple-sections tier=quick,thorough bounds="cached NXDOMAIN or NOERROR message with a CNAME answer, an SOA authority record and a TXT additional record (TTL 100 or 7 each, independently); two consecutive hits at ages from {0, 1.6 s, 3 s, 6.4 s} (non-decreasing)" reach=served,aged maxpaths=20000
+//verif:assume ages below the lowest TTL (the LRU's expiry is decided in H04f-simple-store)
+func VerifC04SimpleSections() {
+	ttls := []uint32{100, 7}
+	ta, tn, te := ttls[verifChoice(2)], ttls[verifChoice(2)], ttls[verifChoice(2)]
+	req := &dns.Msg{}
+	req.SetQuestion("example.org.", dns.TypeA)
+	req.Id = nondetU16()
+	resp := (&dns.Msg{}).SetReply(req)
+	if verifChoice(2) == 1 {
+		resp.Rcode = dns.RcodeNameError
+	}
+	resp.Answer = []dns.RR{&dns.CNAME{Hdr: dns.RR_Header{Name: "example.org.", Rrtype: dns.TypeCNAME, Class: dns.ClassINET, Ttl: ta}, Target: "x.example."}}
+	resp.Ns = []dns.RR{&dns.SOA{Hdr: dns.RR_Header{Name: "example.", Rrtype: dns.TypeSOA, Class: dns.ClassINET, Ttl: tn}, Ns: "ns.example.", Mbox: "m.example.", Minttl: 3600}}
+	resp.Extra = []dns.RR{&dns.TXT{Hdr: dns.RR_Header{Name: "example.org.", Rrtype: dns.TypeTXT, Class: dns.ClassINET, Ttl: te}, Txt: []string{"x"}}}
+	lowest := ta
+	if tn < lowest {
+		lowest = tn
+	}
+	if te < lowest {
+		lowest = te
+	}
+	when := int64(1) << 40
+	m := NewMiddleware(&MiddlewareConfig{Count: 1})
+	item := cacheItem{when: time.Unix(0, when), msg: resp}
+	ages := []int64{0, 1_600_000_000, 3_000_000_000, 6_400_000_000}
+	prev := 0
+	for hit := 0; hit < 2; hit++ {
+		k := prev + verifChoice(len(ages)-prev)
+		prev = k
+		age := ages[k]
+		verifSetClock(when + age)
+		got := m.fromCacheItem(item, req)
+		verifAssert("same-sections", len(got.Answer) == 1 && len(got.Ns) == 1 && len(got.Extra) == 1)
+		if len(got.Answer) != 1 || len(got.Ns) != 1 || len(got.Extra) != 1 {
+			return
+		}
+		// whole seconds spent in the cache, rounded half up as the documentation says
+		spent := uint32((age + 500_000_000) / 1_000_000_000)
+		want := lowest - spent
+		for _, rr := range []dns.RR{got.Answer[0], got.Ns[0], got.Extra[0]} {
+			verifAssert("every-record-served-with-the-aged-ttl", rr.Header().Ttl <= want)
+		}
+		verifAssert("hit-does-not-change-the-cached-entry", resp.Answer[0].Header().Ttl == ta && resp.Ns[0].Header().Ttl == tn && resp.Extra[0].Header().Ttl == te)
+		verifAssert("id-of-request", got.Id == req.Id)
+		if spent > 0 {
+			verifReach("aged")
+		}
+	}
+	verifReach("served")
+}
